@@ -4,6 +4,7 @@
       case["src_tree"]      walk of the source file                        (text)
       case["read"]          ("ok", description of what TFLiteGraph built)  | ("err", kind)
       case["write"]         ("ok", description before writing, walk of the written file) | ("err", kind, description) | None
+      case["reread"]        the real reader on the written file: ("ok", description) | ("err", kind, repr) | ("skipped", why)
 
 The harness stands in for the compiler between reader and writer: it calls `refresh_after_modification` (as `read_tflite`
 does), lists the operators of every subgraph as one pass (the Const / Placeholder producers in tensor order, then the file's
@@ -243,4 +244,30 @@ def run_case(seed, idx, malformed=False, do_perturb=True, payloads=True):
         return case
     case["out"] = out
     case["write"] = ("ok", desc, wtree.text(wtree.walk(out)))
+    case["reread"] = reread_real(out)
     return case
+
+
+def reread_real(out):
+    """the real reader on the file the real writer produced: ("ok", description) | ("err", kind) | ("skipped", why) — judged by
+    Lean against Spec.normalise of the description that was written (Props/C11Writer.read_write_roundtrip)"""
+    from ethosu.vela.tensor import TensorAddressMap
+
+    TensorAddressMap.clear_address_map()
+    try:
+        g, rec = read_real(out)
+    except BaseException as e:  # noqa: B902
+        if isinstance(e, (KeyboardInterrupt, MemoryError)):
+            raise
+        return ("err", kind_of(e), repr(e)[:200])
+    ids, per_sg = seed_ids(g, rec)
+    try:
+        with contextlib.redirect_stdout(io.StringIO()):
+            g.nng.refresh_after_modification()
+    except Exception as e:  # noqa: B902
+        return ("skipped", "refresh:" + kind_of(e))
+    make_passes(g, rec, per_sg)
+    try:
+        return ("ok", wtree.text(wtree.describe(g.nng, payloads=False, ids=ids)))
+    except wtree.Undescribable as e:
+        return ("skipped", "undescribable:" + str(e)[:80])
